@@ -25,6 +25,55 @@ CHECKS = {
         600,
         7200,
     ),
+    "C01": (
+        "exploration",
+        "Seeded Engine-A runs (real Device/mesh/TDGLSolver/Runner) over devices with 2..4 terminals and 0..2 holes, balanced constant/piecewise/ramped currents with integer, dyadic and non-representable amplitudes, static and time-dependent fields, screening, adaptivity, thermalisation, unit systems and injected refusals; after EVERY update (not only recorded frames) the net outflow of every cell is compared with the cell's share of the requested terminal current by an independent divergence assembly and an SI unit model; rejection of a balanced assignment is a violation. Sampling, not proof.",
+        "Trusted: sim/refphys.py (divergence, boundary-edge detection by triangle incidence, terminal shares via shapely), sim/si.py (CODATA constants; 1e-7 relative for SI comparisons, 1e-9 for per-cell continuity), mesh areas/dual lengths as given (C07 not claimed).",
+        "deterministic simulation: seeded drive schedules + fault injection (refusals), per-step conservation invariant against an independent reference model",
+        "DESIGN.md 4/C01", 600, 7200,
+    ),
+    "C02": (
+        "exploration",
+        "Call-seam invariant on reached states only: every call of the documented TDGLSolver.solve_for_psi_squared in seeded Engine-A runs (gamma 0..10, epsilon -1..1, dt 1e-6..10, strong drives, screening, pinned zeros) is checked against eqs. z, w, quad-2, quad-root, psi-sol: identity psi'+z s=w, s=|psi'|^2 real >= 0, '+' branch, refusal iff a negative discriminant (extended precision, 1e-12 dead band). The property's quantifier (whole per-site input space) is NOT covered; overflow range excluded as the property states.",
+        "Trusted: sim/refphys.py z_w/discriminant/plus_root written from docs/background.rst; the Laplacian action is taken from the call's own argument (the property allows any covariant Laplacian action). Injected refusals are tagged and excluded.",
+        "deterministic simulation: online invariant at the psi-update seam over seeded runs",
+        "DESIGN.md 4/C02", 600, 7200,
+    ),
+    "C06": (
+        "exploration",
+        "Seeded Engine-A runs on devices with terminals, terminal_psi in {0, None, real/complex nonzero}, refresh-heavy drives, screening, injected refusals, thermalisation: after every update and in every frame psi on independently recomputed terminal sites equals the configured value (bitwise for 0, 1e-12 otherwise); before every psi attempt the identity rows of the Laplacian are exactly the terminal sites (none when unset) and the update identity holds on every row actually handed over.",
+        "Trusted: terminal sites recomputed with shapely from the terminal polygons; C02 oracle for the free rows.",
+        "deterministic simulation: per-step invariant across operator-refresh histories with injected refusals",
+        "DESIGN.md 4/C06", 600, 7200,
+    ),
+    "C10": (
+        "exploration",
+        "Seeded refresh histories: (a) inside Engine-A runs with time-dependent fields (fast, slow to 1e-9 relative per step, piecewise, returning, through zero) and/or screening, after every in-place refresh and immediately before every psi attempt the covariant gradient/Laplacian in use are compared bitwise (values and sparsity) with a rebuild from the solver's link exponents and to 1e-10 with a dense reference Laplacian for the vector potential the environment has in force; (b) bare MeshOperators histories of length 1..6 with repeats, zeros, pinned/unpinned rows.",
+        "Trusted: dense reference Laplacian/gradient (sim/refphys.py), the expression interpreter of the drive (sim/build.py eval_tree).",
+        "deterministic simulation: seeded update histories, refresh-vs-rebuild differential oracle at the seam",
+        "DESIGN.md 4/C10", 600, 7200,
+    ),
+    "C12": (
+        "exploration",
+        "Seeded Engine-A runs over dt_init 1e-6..10, dt_max, window 1..20, multiplier, retry budget 0..10, adaptive on/off, thermalisation, natural refusals from strong drives and injected refusals on chosen (step, attempt) pairs incl. bursts beyond the retry budget; a reference model of the controller (documented formula) is replayed on the observed history: attempted dt = proposed x m^r, used dt in (0, dt_max], == dt_init when not adaptive, next proposal == documented rule, per-step record == used dt, exhaustion raises and nothing runs afterwards.",
+        "Trusted: the controller model in sim/checkers.py C12TimeStep (from docs/background.rst 'Adaptive time step'); warm-up uses the per-stage step index as the code and the docs do.",
+        "deterministic simulation: fault injection (buggify refusals) + reference-model replay of the dt controller",
+        "DESIGN.md 4/C12", 600, 7200,
+    ),
+    "C13": (
+        "exploration",
+        "Seeded Engine-A runs with screening (tolerance 1e-4..1e-2, step size/drag varied, static/time-dependent fields, terminals, iteration budgets below need) and screening-off runs: every iteration the numba kernel output equals a direct SI double sum over the call's own arguments and the reported mismatch equals the recomputed one; every accepted step has mismatch < tolerance at its last iteration and a stored potential consistent with the stored currents; non-convergence raises RuntimeError and records nothing; screening off => induced potential identically zero.",
+        "Trusted: direct double sum + SI prefactor (sim/refphys.py, sim/si.py). Known finding C13-momentum-exit is printed, not failed.",
+        "deterministic simulation: per-iteration invariant at the screening seam, forced non-convergence faults",
+        "DESIGN.md 4/C13", 900, 7200,
+    ),
+    "C17": (
+        "exploration",
+        "Quiescent-environment runs (no field, no current, epsilon=1, unpinned terminals) on random irregular/smoothed/holed meshes, gamma/u varied, adaptive on/off, screening on/off, thermalisation, injected refusals, up to 300 steps: after every update | |psi|-1 |, currents, mu-mean(mu), induced potential and phase spread <= 1e-9 (observed <= 2e-16), and with adaptivity dt == dt_max from step window+2 on. Time steps beyond the explicit-Euler stability bound are discarded (there rounding noise is amplified exponentially regardless of the scheme).",
+        "Exactness is decided as 'to accumulated rounding'; see DESIGN.md C17.",
+        "deterministic simulation: stationarity invariant + bounded liveness of the dt controller under injected refusals",
+        "DESIGN.md 4/C17", 600, 7200,
+    ),
 }
 
 
